@@ -516,6 +516,47 @@ func (r *ksRun) exec(line string) (out string) {
 	switch op {
 	case "init":
 		return r.withLabel(ksErrLine(r.ks.Initialize(ksMaster(a["mk"]), a["id"], ksKeyText(a["pub"]))))
+	case "initrace":
+		// four identical Initialize calls at once (real goroutines): as ONE call — accepted once at most, every other
+		// caller refused the way a second sequential call is
+		const n = 4
+
+		errs := make([]error, n)
+
+		var wg sync.WaitGroup
+
+		for i := range errs {
+			wg.Add(1)
+
+			go func() {
+				defer wg.Done()
+
+				errs[i] = r.ks.Initialize(ksMaster(a["mk"]), a["id"], ksKeyText(a["pub"]))
+			}()
+		}
+
+		wg.Wait()
+
+		wins, lines := 0, map[string]int{}
+
+		for _, err := range errs {
+			if err == nil {
+				wins++
+			} else {
+				lines[ksErrLine(err)]++
+			}
+		}
+
+		switch {
+		case wins == 1:
+			return r.withLabel("ok")
+		case wins == 0 && len(lines) == 1:
+			for l := range lines {
+				return r.withLabel(l)
+			}
+		}
+
+		return r.withLabel(fmt.Sprintf("RACE accepted=%d of %d", wins, n))
 	case "add":
 		return r.withLabel(ksErrLine(r.ks.AddKeySlot(a["new"], ksKeyText(a["pub"]), a["old"], ksKeyText(a["priv"]))))
 	case "delete":
@@ -657,6 +698,11 @@ func (s *ksShadow) genInit(r *Rand) string {
 	if !s.init && (mk == "m1" || mk == "m2") && id != "" && ksPubValid(pub) {
 		s.init = true
 		s.live[id] = k
+	}
+
+	if r.Chance(1, 6) {
+		// the same initialisation attempted by four callers at once: at most one of them may be accepted
+		return fmt.Sprintf("initrace mk=%s id=%s pub=%s", mk, id, pub)
 	}
 
 	return fmt.Sprintf("init mk=%s id=%s pub=%s", mk, id, pub)
